@@ -81,6 +81,28 @@ func run(cfg lib.Cfg) error {
 		judge(sc, "corpus-cross-partition-switch")
 	}
 
+	// fresh start WITHOUT a configured start: the first recorded position (one block, or a
+	// first batch of several blocks when the head moves between the two head queries of the
+	// first step) is the ONLY one when the reorg orphans it: the unwind finds no remaining
+	// position and has to remove every row of the pair.
+	for v := 0; v < 4; v++ {
+		shape := []string{"tx", "trace", "tx", "log"}[v]
+		sc := world(fmt.Sprintf("corpus-fresh-start-unwind-%d", v), []string{shape}, 6, 1+v%2, 5, uint64(95+v))
+		sc.Gen.EmptyProb, sc.Gen.AlwaysTrace = 0, true
+		sc.IGs[0].Sources[0].Start = 0
+		if v >= 2 {
+			// the head grows from 5 to 8 between Latest(0) and Latest(local): first batch 5..8
+			sc.Acts = append(sc.Acts, ts.Act{Do: "makever", K: 3}, ts.Act{Do: "switchat", Tid: 1, K: 2, Ver: 2}, ts.Act{Do: "step", Tid: 1}, ts.Act{Do: "setver", Ver: 2})
+			sc.Acts = append(sc.Acts, ts.Act{Do: "reorg", Fork: 6, Len: 5})
+		} else {
+			sc.Acts = append(sc.Acts, ts.Act{Do: "step", Tid: 1}, ts.Act{Do: "reorg", Fork: 5, Len: 4})
+		}
+		sc.Acts = append(sc.Acts, rounds(1, 2)...)
+		sc.Acts = append(sc.Acts, ts.Act{Do: "grow", K: 3})
+		sc.Acts = append(sc.Acts, rounds(1, 6)...)
+		judge(sc, "corpus-fresh-start-unwind")
+	}
+
 	// single faults inside the unwinding step: at every statement from the first DelCursors to
 	// the statement after the last DelRows (error reply / connection drop / process death) and
 	// at the load that follows the unwind; then fault-free to quiescence.  A failed unwinding
@@ -347,7 +369,25 @@ func run(cfg lib.Cfg) error {
 	if cfg.Thorough() {
 		nr = 400
 	}
-	realShapes := []string{"log", "tx"}
+	// real client, headers + receipts plan, two integrations sharing the client (maxreads 2):
+	// the reorg (fork below an indexed block) lands between the header exchange and the
+	// receipts exchange of one Get; the retry is served the cached header segment.  The
+	// switch position is enumerated over the first HTTP exchanges of the step.
+	// (a block of a cached segment can be read maxreads times: batch 1 with two integrations,
+	// batch 2 with three, so that the retry still finds the segment of the failed request)
+	for _, c := range []struct{ nig, batch int }{{2, 1}, {3, 2}} {
+		for k := 0; k < 4; k++ {
+			shapes := []string{"txr", "txr", "txr"}[:c.nig]
+			sc := world(fmt.Sprintf("corpus-real-header-receipt-skew-%digs-b%d-k%d", c.nig, c.batch, k), shapes, c.batch, 1, 8, 97)
+			sc.Real = true
+			sc.Gen.EmptyProb = 0
+			sc.Acts = append(rounds(c.nig, 4/c.batch), ts.Act{Do: "makever", Fork: 3, Len: 8},
+				ts.Act{Do: "xswitch", K: k, Ver: 2}, ts.Act{Do: "step", Tid: 1}, ts.Act{Do: "setver", Ver: 2})
+			sc.Acts = append(sc.Acts, rounds(c.nig, 10/c.batch+8)...)
+			judge(sc, "corpus-real-header-receipt-skew")
+		}
+	}
+	realShapes := []string{"log", "tx", "txr"}
 	for i := 0; i < nr; i++ {
 		nig := 1 + r.Intn(3)
 		var shapes []string
